@@ -147,22 +147,30 @@ func init() {
 			js := chunk("tree", "prod", n, pick(tier, 200, 1300), Job{Timeout: 40 * time.Minute})
 			js = append(js, chunk("deflevel", "prod", pick(tier, 4, 40), 1, Job{})...)
 			js = append(js, chunk("deflevel", "test", pick(tier, 4, 40), 1, Job{})...)
+			// production processes whose environment carries DEBUG with a value that says "no": still Warn
+			for i, v := range []string{"", "0", "false", "off", "no", "n", "f", "disabled", "FALSE", "Off", "none", "-"} {
+				if tier == "quick" && i%2 == int(((seed%2)+2)%2) && i > 3 {
+					continue
+				}
+				js = append(js, Job{Sub: "deflevel", Mode: "prod", From: 100 + i, To: 101 + i, Env: []string{"DEBUG=" + v}})
+			}
 			return js
 		},
 	})
 	register(&Plan{
 		Prop:  "C11",
 		Level: "exploration",
-		Rule: "exh: ALL sequences up to the length bound over (call x target logger): quick = 23 calls x 3 loggers, length <= 2 (4831 sequences); thorough = length <= 3 over 23 calls (333340) ; calls = SetJSONMode/SetColorMode with 0, 1 or 2 boolean arguments, WithJSONMode/WithColorMode variants, New(..) on a logger with the mode options (with a name, with an empty name, without a name, behind another option, two mode options in a row); " +
-			"targets = root, child, grandchild of a fresh tree. rand: random sequences of 4-15 calls. After EVERY call, for EVERY logger of the tree (incl. the children created on the way): JSONMode()/ColorMode() == the modelled three-state machine and a probe record classifies ({ / ESC / time=) as that state. non-trivial = every completed sequence; distinct = by sequence",
+		Rule: "exh: ALL sequences up to the length bound over (call x target logger): quick = 25 calls x 3 loggers, length <= 2 (5701 sequences); thorough = length <= 3 over 25 calls (427576) ; calls = SetJSONMode/SetColorMode with 0, 1 or 2 boolean arguments, WithJSONMode/WithColorMode variants, New(..) on a logger with the mode options (with a name, with an empty name, without a name, behind another option, two mode options in a row) and two calls that are NOT mode calls and leave the format alone (the destination replaced by a real *os.File and back; SetLevel/SetAttrs/SetTimeFormat); " +
+			"targets = root, child, grandchild of a fresh tree. rand: random sequences of 4-15 calls, in a production process and under go test (where every other probe carries an error value whose dump is part of the record). After EVERY call, for EVERY logger of the tree (incl. the children created on the way): JSONMode()/ColorMode() == the modelled three-state machine and a probe record classifies ({ / ESC / time=) as that state. non-trivial = every completed sequence; distinct = by sequence",
 		Assumptions: []string{"a call without arguments means true, with several the last wins (as documented)"},
 		Floors:      map[string]int64{"probes_classified": 5000},
 		Exhaustive:  func(string) bool { return true },
 		Jobs: func(tier string, seed int64) []Job {
-			// 69 symbols: lengths <=2 -> 1+69+4761 = 4831 ; <=3 -> 333340
-			n := pick(tier, 4831, 333340)
-			js := chunk("exh", "prod", n, pick(tier, 405, 20900), Job{Timeout: 30 * time.Minute})
+			// 75 symbols: lengths <=2 -> 1+75+5625 = 5701 ; <=3 -> 427576
+			n := pick(tier, 5701, 427576)
+			js := chunk("exh", "prod", n, pick(tier, 480, 26800), Job{Timeout: 30 * time.Minute})
 			js = append(js, chunk("rand", "prod", pick(tier, 12000, 50000), pick(tier, 1000, 3200), Job{Timeout: 30 * time.Minute})...)
+			js = append(js, chunk("rand", "test", pick(tier, 4000, 20000), pick(tier, 1000, 2500), Job{Timeout: 30 * time.Minute})...)
 			return js
 		},
 	})
